@@ -4,6 +4,7 @@ import (
 	"bytes"
 	"fmt"
 	"math/bits"
+	"runtime"
 
 	"github.com/cloudflare/pat-go/quicwire"
 
@@ -55,7 +56,7 @@ func init() {
 		Rule: "values: every v below 2^22 (quick) / 2^30 (thorough) plus boundary set {2^k-1,2^k,2^k+1} and seeded 62-bit values, each through AppendVarint/SizeVarint/ConsumeVarint against an arithmetic RFC 9000 reference; " +
 			"decoder inputs: every byte string of length <= 2, every (first byte, length 0..9) with seeded tails, declared-length x remaining matrix for Consume{Varint,Uint8}Bytes. " +
 			"distinct_nontrivial = distinct (function, encoding class or outcome class, boundary/shape bucket) keys observed",
-		Floors:      []string{"varint_roundtrip_values", "decode_short_input_rejected", "declared_length_too_large_rejected", "bytes_roundtrip_ok", "decode_accepted"},
+		Floors:      []string{"varint_roundtrip_values", "decode_short_input_rejected", "declared_length_too_large_rejected", "bytes_roundtrip_ok", "decode_accepted", "large_strings_roundtrip_ok"},
 		Assumptions: []string{"values above 2^62-1 are outside the statement (AppendVarint/SizeVarint panic there; logged, not judged)", "amd64: int is 64 bits"},
 		Run:         runC19,
 	})
@@ -474,6 +475,51 @@ func runC19(c *core.Ctx) {
 	lens := []int{0, 1, 62, 63, 64, 65, 254, 255, 256, 257, 16383, 16384, 16385, 70000}
 	for i := 0; i < c.Pick(200, 5000); i++ {
 		lens = append(lens, -1)
+	}
+	// large strings: around 2^20, 2^24 (16 MiB), 2^25, 2^26; the thorough tier goes to the 4/8-byte varint border at 2^30
+	big := []int{1 << 20, 1<<24 - 1, 1 << 24, 1<<24 + 1, 1<<25 + 3, 1 << 26}
+	if c.Thorough() {
+		big = append(big, 1<<28+5, 1<<30-1, 1<<30, 1<<30+1)
+	}
+	for _, l := range big {
+		if !c.Next() {
+			continue
+		}
+		c.Eval(1)
+		v := make([]byte, l)
+		marks := []int{0, 1, l / 3, l / 2, l - 2, l - 1}
+		for k, p := range marks {
+			v[p] = byte(0xa0 + k)
+		}
+		var out, back []byte
+		var n int
+		pan, pv, _ := core.Guard(func() {
+			out = quicwire.AppendVarintBytes(nil, v)
+			back, n = quicwire.ConsumeVarintBytes(out)
+		})
+		hdr := refVarintEnc(uint64(l))
+		d := map[string]any{"len": l}
+		switch {
+		case pan:
+			c.Violationf("VarintBytes:large:panic", d, "Append/ConsumeVarintBytes panicked for a %d-byte string: %s", l, pv)
+		case len(out) != len(hdr)+l || !bytes.Equal(out[:len(hdr)], hdr):
+			c.Violationf("AppendVarintBytes:large:wrong", d, "AppendVarintBytes of a %d-byte string has length %d / a wrong prefix", l, len(out))
+		case n != len(out) || len(back) != l:
+			c.Violationf("VarintBytes:large:roundtrip", d, "a %d-byte string does not round-trip: ConsumeVarintBytes returned n=%d, %d bytes", l, n, len(back))
+		default:
+			ok := true
+			for k, p := range marks {
+				ok = ok && back[p] == byte(0xa0+k) && out[len(hdr)+p] == byte(0xa0+k)
+			}
+			if !ok || !bytes.Equal(back[l/2-64:l/2+64], v[l/2-64:l/2+64]) {
+				c.Violationf("VarintBytes:large:roundtrip", d, "a %d-byte string does not round-trip (content differs)", l)
+			} else {
+				c.Class("large_strings_roundtrip_ok")
+				c.Distinctf("AppendVarintBytes:large:%d", l)
+			}
+		}
+		out, back, v = nil, nil, nil
+		runtime.GC()
 	}
 	for _, l := range lens {
 		if !c.Next() {
